@@ -129,6 +129,10 @@ def plan(rng, tier):
             op = ["@cmp", rng.randrange(1 << 16),
                   rng.choice(["deactivate", "deactivate", "minimize",
                               "leaves", "leaves"]), op]
+        elif hk and op[0] in RAISABLE and rng.random() < 0.2:
+            # a *failing* operation of another kind: the n-th key comparison
+            # raises (on both sides); pins must be released all the same
+            op = ["@raise", rng.randrange(1 << 16), op]
         out.append(op)
         if rng.random() < p_sweep:
             out.append(["sweep", rng.choice(["minimize", "minimize",
@@ -162,6 +166,10 @@ def simplify(plan):
 MUTATORS = ("set", "del", "insert", "setdefault", "pop", "popd", "popitem",
             "update", "clear", "add", "sinsert", "remove", "discard", "spop",
             "supdate", "ior", "iand", "isub", "ixor")
+
+
+RAISABLE = ("get", "getd", "getitem", "in", "has_key", "minKey", "maxKey",
+            "range", "isdisjoint", "mod")
 
 
 class _Side(object):
@@ -236,6 +244,10 @@ def _do(side, op, dom, cfg, twinside):
     return ops.apply(side.c, op, dom, impl, kind)
 
 
+def _raise():
+    raise keys.SimCompareError("injected")
+
+
 def _outcome_class(o):
     return o[1] if o[0] == "exc" else "ok"
 
@@ -297,6 +309,51 @@ def execute(plan, ctx):
             if name == "@cmp":
                 op = op0[3]
                 fault = (op0[1], op0[2])
+            if name == "@raise":
+                op = op0[2]
+                # count on a dry run of the (read-only) operation, then let
+                # the same comparison raise on both sides
+                # (comparison counts differ between the sides: keys that
+                # were reloaded are new objects, and equal objects are first
+                # compared by identity -- so the evicted side is its own
+                # reference here)
+                hook.counting()
+                want = _do(A, op, dom, cfg, None)
+                ncmp = hook.count
+                hook.disarm()
+                if ncmp == 0:
+                    continue
+                at = 1 + op0[1] % ncmp
+                hook.arm(at, _raise)
+                got = _do(A, op, dom, cfg, None)
+                fired = hook.fired
+                hook.disarm()
+                if not fired:
+                    continue
+                ctx.fault("cmp-raise")
+                opn = op[0] if op[0] != "mod" else op[1]
+                ctx.ev(opn, "cmp-raise", _outcome_class(got))
+                sig = dict(base, op=opn, fault="cmp-raise")
+                if got != ("exc", "SimCompareError") and \
+                        not ops.same_outcome(got, want):
+                    raise Violation(
+                        dict(sig, oracle="cmp-raise-outcome",
+                             got=_outcome_class(got),
+                             want=_outcome_class(want)),
+                        "%r with comparison %d raising -> %r; without the "
+                        "fault %r" % (op, at, got, want))
+                sticky = [o for o in A.conn.nodes() if o._p_state == STICKY]
+                if sticky:
+                    raise Violation(
+                        dict(sig, oracle="left-sticky",
+                             outcome=_outcome_class(got),
+                             node=_node_class(sticky[0], A.c)),
+                        "after %r failed with %r (comparison %d of %d "
+                        "raised) a %s node is still in the sticky state" % (
+                            op, got, at, ncmp,
+                            _node_class(sticky[0], A.c)))
+                ctx.interleaving((opn, _outcome_class(got), "cmp-raise"))
+                continue
             # twin first (also counts the comparisons of this operation)
             hook.counting()
             want = _do(B, op, dom, cfg, None)
